@@ -466,6 +466,11 @@ func (ctx *checkCtx) report(total *JobResult, update, verbose bool, start time.T
 				continue
 			}
 			np[r.Name] = r.Status
+			if r.Status == "proved" && r.Secs > 4.0 {
+				// too close to the solver budget to be relied on: a later
+				// timeout must not be reported as a regression
+				np[r.Name] = "proved-slow"
+			}
 		}
 		base.Obligations[ctx.prop] = np
 		data, _ := json.MarshalIndent(base, "", " ")
